@@ -118,6 +118,9 @@ class Monitor:
         self.s = Session(self.version, Config(persistence_file=pers.PATH))
         self.vfs = fsshim.VFS()
         self._alpha = alphabet(self.version, cfg.get("thorough", False))
+        self.explicit = bool(cfg.get("explicit"))
+        if self.explicit:
+            self._alpha = ["1;255;0;0;17;2.0", "1;3;0;0;6;a", "1;4;0;0;6;b", "1;3;1;0;2;v", "1;4;1;0;2;w", "<save>"]
         self.nontrivial = False
         self.last_desc = None
 
@@ -125,6 +128,20 @@ class Monitor:
         return self._alpha
 
     def apply(self, line: str) -> list:
+        if self.explicit and line != "<save>":
+            # saves happen only when asked for: the file may lag behind the registry for several messages
+            out = self.s.line(line)
+            self.last_desc = out.describe()
+            self.nontrivial = False
+            return []
+        if line == "<save>":
+            nodes = self.s.gateway.nodes
+            self.last_desc = {"save": sorted(nodes)}
+            self.nontrivial = True
+            viols = []
+            for kind, text in roundtrip(nodes, self.s.gateway.persistence, self.vfs):
+                viols.append((f"C13|{kind}", f"[{self.version}] explicit save with registry {nodes!r}: {text}"[:900], None))
+            return viols
         out = self.s.line(line)
         self.last_desc = out.describe()
         viols = []
@@ -150,6 +167,11 @@ class Monitor:
         return viols
 
     def key(self):
+        if self.explicit:
+            from ..harness import walk
+
+            p = self.s.gateway.persistence
+            return (canon_gateway(self.s.gateway), bytes(self.vfs.files.get(pers.PATH, b"")), walk({k: v for k, v in vars(p).items() if k not in ("nodes", "path", "_cancel_save")}))
         return canon_gateway(self.s.gateway)
 
 
@@ -202,6 +224,10 @@ def run(ctx: core.Ctx) -> core.Report:
         cfgs = [{"version": v, "thorough": True} for v in R.VERSIONS]
         depth = 5
     res = bfs.search(ctx, MOD, cfgs, max_depth=depth)
+    eres = bfs.search(ctx, MOD, [{"version": "2.2", "explicit": True}], max_depth=6 if ctx.quick else 8)
+    for k in ("states", "transitions"):
+        res[k] += eres[k]
+    res["violations"] += eres["violations"]
     g, _ = grid(ctx.quick)
     chunks = [g[i : i + 60] for i in range(0, len(g), 60)]
     gres = core.pmap(job_grid, chunks, ctx.workers, chunksize=1)
